@@ -630,6 +630,9 @@ def handle_history(job: dict) -> dict:
             fp = parent / rel
             fp.parent.mkdir(parents=True, exist_ok=True)
             fp.write_text(text)
+        for rel in step.get("user_dirs") or []:
+            (parent / rel).mkdir(parents=True, exist_ok=True)
+        outdir_existed = (parent / step["outdir_rel"]).exists() if step.get("outdir_rel") else None
         before = read_tree(parent, "hash")
         sj = dict(step)
         sj.update({"id": f"{job['id']}.{si}", "work": str(parent / "_work"), "name": f"s{si}", "keep": True, "want": ["fs"], "cwd": str(parent / "cwd")})
@@ -643,7 +646,7 @@ def handle_history(job: dict) -> dict:
         shutil.rmtree(parent / "_work", ignore_errors=True)
         after = read_tree(parent, "hash")
         out["steps"].append({"diags": r.get("diags"), "exc": r.get("exc"), "cli_exit": r.get("cli_exit"), "accepted": r.get("accepted"), "fs_events": r.get("fs_events"),
-                             "before": before, "after": after, "cli_stderr": (r.get("cli_stderr") or "")[:600]})
+                             "before": before, "after": after, "outdir_existed": outdir_existed, "cli_stderr": (r.get("cli_stderr") or "")[:600]})
     shutil.rmtree(parent, ignore_errors=True)
     return out
 
